@@ -133,12 +133,13 @@ type faultSpec struct {
 }
 
 type scriptCase struct {
-	Steps   []scriptStep `json:"steps"`
-	Faults  []faultSpec  `json:"faults,omitempty"`
-	Delays  bool         `json:"delays"`
-	Variant string       `json:"engine"` // started, never-started, stopped
-	Query   string       `json:"query"`
-	Conc    int          `json:"max_query_concurrency"`
+	IterGate int          `json:"suspend_iterator_at_yield,omitempty"` // 1-based; 0 = no
+	Steps    []scriptStep `json:"steps"`
+	Faults   []faultSpec  `json:"faults,omitempty"`
+	Delays   bool         `json:"delays"`
+	Variant  string       `json:"engine"` // started, never-started, stopped
+	Query    string       `json:"query"`
+	Conc     int          `json:"max_query_concurrency"`
 }
 
 func genScript(r *core.Rand) []scriptStep {
@@ -196,13 +197,15 @@ type scriptWorld struct {
 
 // scriptPlan injects faults relative to a query's start and random delays.
 type scriptPlan struct {
-	mu       sync.Mutex
-	active   bool
-	base     map[string]int // per-kind call count at query start
-	faults   []faultSpec
-	delays   bool
-	rnd      *core.Rand
-	injected []string
+	iterGate  *stores.Gate // the iterGateN-th iterator yield of the query parks here (honours ctx)
+	iterGateN int
+	mu        sync.Mutex
+	active    bool
+	base      map[string]int // per-kind call count at query start
+	faults    []faultSpec
+	delays    bool
+	rnd       *core.Rand
+	injected  []string
 }
 
 func (p *scriptPlan) decide(c *stores.Call) stores.Action {
@@ -213,6 +216,9 @@ func (p *scriptPlan) decide(c *stores.Call) stores.Action {
 	}
 	var act stores.Action
 	rel := c.N - p.base[c.Kind]
+	if p.iterGate != nil && c.Kind == "IterYield" && rel == p.iterGateN {
+		act.Gate = p.iterGate
+	}
 	for _, f := range p.faults {
 		if f.Kind == c.Kind && f.N == rel {
 			act.Fail = true
@@ -340,6 +346,19 @@ func runScripts(rc *RunCtx, i int, forProp string) {
 				sc.Faults = append(sc.Faults, faultSpec{Kind: kind, N: r.Range(0, 12)})
 			}
 		}
+		if r.Chance(0.15) {
+			// the MetaStore iterator is suspended (ctx-honouring wait) when the consumer cancels/closes
+			sc.IterGate = r.Range(1, 3)
+			sc.Faults = nil
+			switch r.Intn(3) {
+			case 0:
+				sc.Steps = []scriptStep{{Op: "cancel"}, {Op: "drain"}}
+			case 1:
+				sc.Steps = []scriptStep{{Op: "pause", N: r.Range(2, 20)}, {Op: "close"}, {Op: "drain"}}
+			default:
+				sc.Steps = []scriptStep{{Op: "closeAsync"}, {Op: "drain"}}
+			}
+		}
 		var q *bs.Query
 		switch r.Intn(5) {
 		case 0:
@@ -379,11 +398,20 @@ func runOneScript(rc *RunCtx, i, k int, sw *scriptWorld, sc *scriptCase, q *bs.Q
 	sw.plan.faults = sc.Faults
 	sw.plan.delays = sc.Delays
 	sw.plan.injected = nil
+	sw.plan.iterGate = nil
+	if sc.IterGate > 0 {
+		sw.plan.iterGate = stores.NewGate(true)
+		sw.plan.iterGateN = sc.IterGate - 1
+		rc.Res.Count("scripts_iterator_suspended", 1)
+	}
 	sw.plan.active = true
 	sw.plan.mu.Unlock()
 	defer func() {
 		sw.plan.mu.Lock()
 		sw.plan.active = false
+		if sw.plan.iterGate != nil {
+			sw.plan.iterGate.Open()
+		}
 		sw.plan.mu.Unlock()
 	}()
 	handlesBefore := map[int]bool{}
